@@ -665,6 +665,14 @@ class RefBuild:
             elif kind == "seq":
                 res = []
                 for cmd, names in payload:
+                    if cmd == "uedit":
+                        m.user_write(names[0], names[1])
+                        res.append(True)
+                        continue
+                    if cmd == "udovar":
+                        m.set_variant(names[0], int(names[1]))
+                        res.append(True)
+                        continue
                     if cmd == "ifchange":
                         for d in names:
                             newseen[d] = ("m", None)
